@@ -302,6 +302,7 @@ type facts struct {
 	internalUpdates    bool   // UpdateState(sm.ERROR) on the task's parent role
 	internalStops      bool   // TryTransition(NewStopActivityTransition…)
 	internalCritTested bool   // does that branch look at Critical at all?
+	dev                devFacts // guard stacks of the role update and of the STOP request in that case (devfacts.go)
 	notifyNonBlocking  bool
 	forwardIffCritical bool
 	timerMs            int
@@ -446,26 +447,10 @@ func extract(repo string) (*facts, error) {
 			return true
 		}
 		ft.internalCritTested = mentions(cc, "Critical") || len(callsNamed(cc, "IsCritical")) > 0
-		ast.Inspect(cc, func(y ast.Node) bool {
-			ifs, ok := y.(*ast.IfStmt)
-			if !ok {
-				return true
-			}
-			be, ok := ifs.Cond.(*ast.BinaryExpr)
-			if !ok || be.Op != token.EQL || len(callsNamed(be.X, "CurrentState")) == 0 {
-				return true
-			}
-			if l, ok := strLit(be.Y); ok {
-				ft.internalGuard = l
-				for _, c := range callsNamed(ifs.Body, "UpdateState") {
-					if len(c.Args) == 1 && selName(c.Args[0]) == "ERROR" {
-						ft.internalUpdates = true
-					}
-				}
-				ft.internalStops = len(callsNamed(ifs.Body, "NewStopActivityTransition")) > 0 && len(callsNamed(ifs.Body, "TryTransition")) > 0
-			}
-			return true
-		})
+		ft.dev = deviceFacts(cc)
+		ft.internalGuard = ft.dev.guard
+		ft.internalUpdates = ft.dev.role.n == 1
+		ft.internalStops = ft.dev.stop.n == 1
 		return false
 	})
 	// ---- core/workflow/parentadapter.go updateState
@@ -695,9 +680,16 @@ func genFacts(repo string) (string, error) {
 	w("go/ast, HandleExecutorFailed: updateTaskState and UpdateStatus(INACTIVE) sit, unconditionally (the latter under one `!= nil` test of the parent), in the body of a `range` loop over the snapshot `m.roster.filtered(…)`, and no statement of that body (function literals not entered) can leave the iteration: every entry of the snapshot gets its body", "execWalkPerTask", "Bool", bs(ft.execWalkPerTask))
 	w("go/ast, HandleAgentFailed: the same shape", "agentWalkPerTask", "Bool", bs(ft.agentWalkPerTask))
 	w("go/ast, handleDeviceEvent case TASK_INTERNAL_ERROR: the literal env.CurrentState() is compared with", "internalGuard", "String", strconv.Quote(ft.internalGuard))
-	w("go/ast, same branch: t.GetParent().UpdateState(sm.ERROR)", "internalUpdatesRole", "Bool", bs(ft.internalUpdates))
-	w("go/ast, same branch: env.TryTransition(NewStopActivityTransition(…))", "internalStops", "Bool", bs(ft.internalStops))
+	w("go/ast, same case: exactly one call <parent role of the task>.UpdateState(sm.ERROR)", "internalUpdatesRole", "Bool", bs(ft.internalUpdates))
+	w("go/ast, same case: exactly one call env.TryTransition(NewStopActivityTransition(…))", "internalStops", "Bool", bs(ft.internalStops))
 	w("go/ast, same case: is the task's criticality looked at anywhere?", "internalLooksAtCritical", "Bool", bs(ft.internalCritTested))
+	w("go/ast, same case, guard stack of the role update (conditions of the enclosing ifs and negated conditions of earlier `if C { …; return }` statements, split at &&): contains the test of the environment's state against that literal (directly, or through a variable defined once by `v := env.CurrentState() == …`)", "internalRoleNeedsRunning", "Bool", bs(ft.dev.roleNeedsRunning))
+	w("go/ast, …: contains a test of the task's criticality", "internalRoleNeedsCritical", "Bool", bs(ft.dev.roleNeedsCrit))
+	w("go/ast, …: contains anything else than state test, criticality test and nil tests (or the call is not unique / sits in a loop, switch, select or a function literal that is not invoked on the spot)", "internalRoleOther", "Bool", bs(ft.dev.roleOther))
+	w("go/ast, same case, guard stack of the STOP request: contains the state test", "internalStopNeedsRunning", "Bool", bs(ft.dev.stopNeedsRunning))
+	w("go/ast, …: contains a POSITIVE test of the task's criticality (`if !t.GetTraits().Critical { return }` before it, or an enclosing `if ….Critical`)", "internalStopNeedsCritical", "Bool", bs(ft.dev.stopNeedsCrit))
+	w("go/ast, …: contains anything else (as above; also a criticality test of the wrong polarity)", "internalStopOther", "Bool", bs(ft.dev.stopOther))
+	w("go/ast, same case: role update and STOP request run in the same goroutine, the role update first", "internalRoleBeforeStop", "Bool", bs(ft.dev.roleBeforeStop))
 	w("go/ast, ParentAdapter.updateState: the send sits in a select with a default clause", "notifyNonBlocking", "Bool", bs(ft.notifyNonBlocking))
 	w("go/ast, taskRole.updateState: exactly one parent.updateState call, inside `if t.Critical == true` without else", "forwardIffCritical", "Bool", bs(ft.forwardIffCritical))
 	w("go/ast, subscribeToWfState: time.AfterFunc(<n>*time.Millisecond, …)", "timerMs", "Nat", fmt.Sprint(ft.timerMs))
